@@ -170,6 +170,7 @@ PROPS["C03"] = {
         Leg("lengths", "c03", "^TestLengths$", engine="enumerate", rapid=False, shards=(1, 1), tests=["lengths"]),
         Leg("stream", "c03", "^TestStream$", checks=(8000, 150000), shards=(2, 16), tests=["stream"]),
         Leg("parallel", "c03", "^TestParallel$", engine="sched", checks=(500, 10000), shards=(2, 16), tests=["parallel"], replay_attempts=5),
+        Leg("interleaved", "c03", "^TestInterleaved$", checks=(2000, 40000), shards=(2, 16), tests=["interleaved"]),
         Leg("slow-consumer", "c03", "^TestSlowConsumer$", engine="sched", checks=(1, 3), shards=(3, 6), tests=["slow-consumer"]),
     ],
 }
